@@ -330,7 +330,7 @@ func doSign(cat Catalogue, path string, w *vt.Writer) {
 	// ML-DSA keys (no independent implementation to check the signature with: round trip only)
 	few := []SignCase{}
 	for _, c := range cs {
-		if c.Fam == "ES256" && len(c.Ks) == 1 && c.Ks[0].Strat == "TINK" {
+		if c.Fam == "ES256" && len(c.Ks) == 1 && c.Ks[0].Strat == "TINK" && c.Ks[0].ID == "01020304" {
 			few = append(few, c)
 		}
 	}
